@@ -10,6 +10,11 @@ NaN == [t |-> "nan"]
 Inf(s) == [t |-> "inf", s |-> s]
 NZ == [t |-> "nzero"]
 S(cs) == [t |-> "str", s |-> cs]
+\* TLC integers are 32-bit: a result beyond +-Lim is the distinguished value Big; the machine stops judging
+\* a program as soon as one is produced (outcome "unmodelled"), so Big never flows into another operator.
+Big == [t |-> "big"]
+Lim == 1000000000
+Clip(i) == IF i > Lim \/ i < 0 - Lim THEN Big ELSE N(i)
 IsNumT(x) == x.t \in {"num", "nan", "inf", "nzero"}
 IsPrim(x) == x.t \in {"undef", "null", "bool", "str"} \/ IsNumT(x)
 \* ---- character helpers
@@ -71,24 +76,29 @@ ToBoolean(x) ==
 Sgn(x) == CASE x.t = "num" -> (IF x.v > 0 THEN 1 ELSE IF x.v < 0 THEN -1 ELSE 0) [] x.t = "inf" -> x.s [] OTHER -> 0
 IsZero(x) == x.t = "nzero" \/ (x.t = "num" /\ x.v = 0)
 SignBit(x) == x.t = "nzero" \/ (x.t = "num" /\ x.v < 0) \/ (x.t = "inf" /\ x.s = -1)   \* sign of zero matters
-Neg(x) == CASE x.t = "num" -> (IF x.v = 0 THEN NZ ELSE N(0 - x.v)) [] x.t = "nzero" -> N(0) [] x.t = "inf" -> Inf(0 - x.s) [] OTHER -> x
+Neg(x) == CASE x.t = "big" -> Big [] x.t = "num" -> (IF x.v = 0 THEN NZ ELSE N(0 - x.v)) [] x.t = "nzero" -> N(0) [] x.t = "inf" -> Inf(0 - x.s) [] OTHER -> x
 Add(x, y) ==
+  IF x.t = "big" \/ y.t = "big" THEN Big ELSE
   IF x.t = "nan" \/ y.t = "nan" THEN NaN
   ELSE IF x.t = "inf" THEN (IF y.t = "inf" /\ y.s # x.s THEN NaN ELSE x)
   ELSE IF y.t = "inf" THEN y
   ELSE IF x.t = "nzero" THEN (IF y.t = "nzero" THEN NZ ELSE y)
   ELSE IF y.t = "nzero" THEN x
-  ELSE N(x.v + y.v)
+  ELSE Clip(x.v + y.v)
 Sub(x, y) == Add(x, Neg(y))
 Mul(x, y) ==
+  IF x.t = "big" \/ y.t = "big" THEN Big ELSE
   IF x.t = "nan" \/ y.t = "nan" THEN NaN
   ELSE IF (x.t = "inf" /\ IsZero(y)) \/ (y.t = "inf" /\ IsZero(x)) THEN NaN
   ELSE LET negr == SignBit(x) # SignBit(y) IN
        IF x.t = "inf" \/ y.t = "inf" THEN Inf(IF negr THEN -1 ELSE 1)
        ELSE IF IsZero(x) \/ IsZero(y) THEN (IF negr THEN NZ ELSE N(0))
-       ELSE N(x.v * y.v)
+       ELSE IF (x.v <= 46000 /\ x.v >= -46000 /\ y.v <= 46000 /\ y.v >= -46000) THEN Clip(x.v * y.v)
+       ELSE IF x.v \in {1, -1} \/ y.v \in {1, -1} THEN N(x.v * y.v)
+       ELSE Big
 Abs(i) == IF i < 0 THEN 0 - i ELSE i
 Mod(x, y) ==  \* JS remainder: sign of dividend
+  IF x.t = "big" \/ y.t = "big" THEN Big ELSE
   IF x.t = "nan" \/ y.t = "nan" \/ x.t = "inf" \/ IsZero(y) THEN NaN
   ELSE IF y.t = "inf" THEN x
   ELSE IF IsZero(x) THEN x
